@@ -613,5 +613,15 @@ def _sibling_guards_list(lst, cur, conds):
             break
         if isinstance(s, ast.If) and _ends_with_jump(s.body) and not s.orelse:
             conds.append((s.test, False))
+        elif isinstance(s, ast.If) and not s.orelse:
+            # `if A: if B: <jump>` (only that) is the guard `if A and B: <jump>`
+            tests = [s.test]
+            cur_if = s
+            while len(cur_if.body) == 1 and isinstance(cur_if.body[0], ast.If) and not cur_if.body[0].orelse:
+                cur_if = cur_if.body[0]
+                tests.append(cur_if.test)
+                if _ends_with_jump(cur_if.body):
+                    conds.append((ast.BoolOp(op=ast.And(), values=tests), False))
+                    break
         elif isinstance(s, ast.If) and s.orelse and _ends_with_jump(s.orelse) and not _ends_with_jump(s.body):
             conds.append((s.test, True))
